@@ -67,6 +67,7 @@ type VC struct {
 	noDef      int
 	noOblige   int
 	ufs        map[string][2]interface{}
+	reads      []groundRead
 	modelTerms []modelTerm
 	replay     *replayInfo
 }
@@ -153,6 +154,11 @@ func (vc *VC) define(prefix, sort, term string) string {
 		vc.boolDef[n] = term
 	}
 	vc.defTerm[n] = term
+	if strings.HasPrefix(term, "(select (select ") {
+		if a := sexprArgs(term); len(a) == 2 {
+			vc.reads = append(vc.reads, groundRead{arr: a[0], idx: a[1], declIdx: len(vc.decls)})
+		}
+	}
 	if iv, ok := vc.e.ar.getIv(term); ok {
 		vc.e.ar.setIv(n, iv.lo, iv.hi)
 	}
@@ -291,6 +297,9 @@ func (vc *VC) oblige(kind, pc, goal, note string) *Obligation {
 		}
 		extra = append(extra, vc.instancesFor(sks, sorts, len(vc.decls))...)
 		extra = append(extra, vc.instancesByMatching(sg, extra, sks, len(vc.decls))...)
+	} else if goal != "false" && goal != "true" && len(vc.qfacts) > 0 {
+		// ground goal: instantiate quantified assumptions at the goal's own array reads
+		extra = append(extra, vc.instancesByMatching(sg, nil, nil, len(vc.decls))...)
 	}
 	o := &Obligation{Name: vc.fnName + "#" + name, Func: vc.fnName, Kind: name, NDecl: len(vc.decls), PC: pc, PCParts: parts, Goal: sg, Extra: extra, Mode: vc.e.ar.mode, Note: note, vc: vc}
 	vc.obligs = append(vc.obligs, o)
@@ -726,7 +735,41 @@ func (e *Engine) merge(states []*State) *State {
 	return out
 }
 
+func isNilSV(v SV) bool {
+	switch x := v.(type) {
+	case *Sc:
+		return x.T == "0"
+	case *PtrSV:
+		return x.Kind == pkHeap && x.Ref == "0" && len(x.Path) == 0
+	}
+	return false
+}
+
 func (e *Engine) mergeSV(t types.Type, c string, a, b SV, name string) SV {
+	// an element pointer merged with nil or with another element pointer of the same
+	// type stays an element pointer (backing reference 0 encodes nil)
+	if _, isPtr := t.Underlying().(*types.Pointer); isPtr {
+		pa, aok := a.(*PtrSV)
+		pb, bok := b.(*PtrSV)
+		aElem := aok && pa.Kind == pkElem && len(pa.Path) == 0
+		bElem := bok && pb.Kind == pkElem && len(pb.Path) == 0
+		if (aElem && (isNilSV(b) || bElem && types.Identical(pa.Root, pb.Root))) || (bElem && isNilSV(a)) {
+			is := e.ar.idxSort()
+			ra, ia, rb, ib := "0", e.idxc(0), "0", e.idxc(0)
+			var root types.Type
+			if aElem {
+				ra, ia, root = pa.Ref, pa.Idx, pa.Root
+			}
+			if bElem {
+				rb, ib, root = pb.Ref, pb.Idx, pb.Root
+			}
+			if ra == rb && ia == ib {
+				return a
+			}
+			return &PtrSV{Kind: pkElem, Root: root, MaybeNil: true,
+				Ref: e.vc.define(name+"b", "Int", ite(c, ra, rb)), Idx: e.vc.define(name+"i", is, ite(c, ia, ib))}
+		}
+	}
 	// Go-side pointers/closures must agree
 	if pa, ok := a.(*PtrSV); ok {
 		if pb, ok := b.(*PtrSV); ok {
@@ -1064,6 +1107,35 @@ func selectsOf(text string, max int) []selTerm {
 	return out
 }
 
+// expandDefs returns the definitions of the names occurring in text, followed
+// transitively to the given depth (used to find the array reads behind a goal).
+func (vc *VC) expandDefs(text string, depth int) string {
+	var out []string
+	seen := map[string]bool{}
+	cur := text
+	for d := 0; d < depth; d++ {
+		var next []string
+		for _, tok := range strings.FieldsFunc(cur, func(r rune) bool { return r == '(' || r == ')' || r == ' ' }) {
+			if seen[tok] {
+				continue
+			}
+			seen[tok] = true
+			if def, ok := vc.defTerm[tok]; ok && len(def) < 2000 {
+				next = append(next, def)
+			}
+		}
+		if len(next) == 0 {
+			break
+		}
+		cur = strings.Join(next, " ")
+		out = append(out, cur)
+		if len(out) > 400 {
+			break
+		}
+	}
+	return strings.Join(out, " ")
+}
+
 func (vc *VC) sameTerm(a, b string) bool {
 	if a == b {
 		return true
@@ -1111,10 +1183,34 @@ func (vc *VC) matchIndex(tmpl, q, ground string) (string, bool) {
 	return "", false
 }
 
+// names of quantifier-bound variables (never valid in a ground instance)
+var anyBoundVarRe = regexp.MustCompile(`(^|[ (])q(_[A-Za-z0-9_]+)?![0-9]+`)
+
+// groundRead: a named two-level array read (an element of a backing array) made by the
+// code or a contract; the instantiation points of quantified facts about that array.
+type groundRead struct {
+	arr, idx string
+	declIdx  int
+}
+
+// sameArr: two row terms (select MAP REF) denote the same row syntactically (through
+// abbreviations of REF).
+func (vc *VC) sameArr(a, b string) bool {
+	if a == b {
+		return true
+	}
+	x, y := sexprArgs(a), sexprArgs(b)
+	if len(x) != 2 || len(y) != 2 || !strings.HasPrefix(a, "(select ") || !strings.HasPrefix(b, "(select ") {
+		return false
+	}
+	return x[0] == y[0] && vc.sameTerm(x[1], y[1])
+}
+
 func (vc *VC) instancesByMatching(goal string, already []string, sks []string, ndecl int) []string {
 	type tmpl struct {
 		qf  int
 		idx string
+		arr string
 	}
 	var tmpls []tmpl
 	for k, qf := range vc.qfacts {
@@ -1123,13 +1219,28 @@ func (vc *VC) instancesByMatching(goal string, already []string, sks []string, n
 		}
 		seen := map[string]bool{}
 		for _, st := range selectsOf(qf.body, 40) {
-			if containsTok(st.idx, qf.q) && !containsTok(st.arr, qf.q) && !strings.Contains(st.idx, "(select ") && !seen[st.idx] {
+			inner := false // the bound variable under a nested read: not an index template
+			for _, in := range selectsOf(st.idx, 10) {
+				if containsTok(in.arr, qf.q) || containsTok(in.idx, qf.q) {
+					inner = true
+				}
+			}
+			if containsTok(st.idx, qf.q) && !containsTok(st.arr, qf.q) && !inner && !seen[st.idx] {
 				seen[st.idx] = true
-				tmpls = append(tmpls, tmpl{k, st.idx})
+				tmpls = append(tmpls, tmpl{k, st.idx, st.arr})
 			}
 		}
 	}
+	if len(sks) == 0 {
+		// a ground goal: its own array reads (through the abbreviations) are the
+		// instantiation points
+		frontier0 := vc.expandDefs(goal, 3)
+		goal = goal + " " + frontier0
+	}
 	mentions := func(t string) bool {
+		if len(sks) == 0 {
+			return true
+		}
 		for _, sk := range sks {
 			if containsTok(t, sk) {
 				return true
@@ -1148,9 +1259,26 @@ func (vc *VC) instancesByMatching(goal string, already []string, sks []string, n
 		gseen := map[string]bool{}
 		for _, text := range frontier {
 			for _, st := range selectsOf(text, 200) {
-				if mentions(st.idx) && len(st.idx) < 300 && !strings.Contains(st.idx, "(select ") && !gseen[st.idx] {
+				if mentions(st.idx) && len(st.idx) < 300 && !strings.Contains(st.idx, "(select ") && !gseen[st.idx] && !anyBoundVarRe.MatchString(st.idx) {
 					gseen[st.idx] = true
 					ground = append(ground, st.idx)
+				}
+			}
+		}
+		// index terms hidden behind merged values: (ite c x y) contributes x and y
+		for k := 0; k < len(ground) && len(ground) < 400; k++ {
+			g := ground[k]
+			if d, ok := vc.defTerm[g]; ok {
+				g = d
+			}
+			if strings.HasPrefix(g, "(ite ") {
+				if a := sexprArgs(g); len(a) == 3 {
+					for _, alt := range a[1:] {
+						if !gseen[alt] && alt != "0" {
+							gseen[alt] = true
+							ground = append(ground, alt)
+						}
+					}
 				}
 			}
 		}
@@ -1175,6 +1303,35 @@ func (vc *VC) instancesByMatching(goal string, already []string, sks []string, n
 			}
 		}
 		frontier = next
+	}
+	// E-matching proper: every earlier read of the same row is an instantiation point
+	// (z3 misses these when the index is an arithmetic term it has normalised)
+	for _, tp := range tmpls {
+		if !strings.HasPrefix(tp.arr, "(select ") {
+			continue
+		}
+		qf := vc.qfacts[tp.qf]
+		n := 0
+		for k := len(vc.reads) - 1; k >= 0 && n < 24; k-- {
+			r := vc.reads[k]
+			if r.declIdx > ndecl || !vc.sameArr(tp.arr, r.arr) {
+				continue
+			}
+			t, ok := vc.matchIndex(tp.idx, qf.q, r.idx)
+			if !ok || len(t) > 300 {
+				continue
+			}
+			inst := fmt.Sprintf("(assert %s)", implies(qf.guard, replaceToken(qf.body, qf.q, t)))
+			if done[inst] {
+				continue
+			}
+			done[inst] = true
+			out = append(out, inst)
+			n++
+			if len(out) >= 240 {
+				return out
+			}
+		}
 	}
 	return out
 }
